@@ -1,22 +1,26 @@
-(* C09 - first sets are exactly the textbook sets (first part of the property; follow and predict
-   are decided by the K2 correspondence and the textbook oracle, see DESIGN.md).
+(* C09 - first, follow and predict sets are the textbook sets.  First sets:
    For every grammar whose node ids are unique and in which every node derives some token string
-   (both boolean certificates, evaluated on every grammar of the K2 correspondence), if the
-   transcription of LL1Validator::calc_first terminates with a map that satisfies the first-set
-   inclusions ([first_closed], evaluated likewise), then for every sub-expression x:
+   (both boolean certificates about the grammar, evaluated on every grammar of the K2
+   correspondence), if the transcription of LL1Validator::calc_first terminates, then for every
+   sub-expression x:
    a token is in first(x) iff some string derived from x starts with it, and the empty-word
    marker is in first(x) iff x derives the empty string. *)
 From Coq Require Import List Arith.
-From LV Require Import Sema FirstSpec FirstComplete FirstSound FirstCert PredictSpec FollowSpec FollowSound FollowCert.
+From LV Require Import Sema FirstSpec FirstComplete FirstSound FirstClosed FirstCert PredictSpec FollowSpec FollowSound FollowCert.
 
 Theorem C09_first_sets_exact :
   forall g fuel m,
   wf_ids_b g = true -> productive_b g = true ->
-  calc_first g fuel = Some m -> first_closed g m = true ->
+  calc_first g fuel = Some m ->
   forall x, In x (nodes_of g) ->
     (forall a, mem (T a) (get m (rid_of x)) = true <-> First_spec g x a)
     /\ (mem Eps (get m (rid_of x)) = true <-> Nullable_spec g x).
-Proof. exact first_exact. Qed.
+Proof. exact first_exact_any. Qed.
+
+(* the map calc_first returns always satisfies the first-set inclusions *)
+Theorem C09_first_sets_closed :
+  forall g fuel m, calc_first g fuel = Some m -> first_closed g m = true.
+Proof. exact calc_first_closed. Qed.
 
 (* soundness alone needs no closure certificate: whatever calc_first returns is justified *)
 Theorem C09_first_sets_sound :
@@ -49,6 +53,7 @@ Theorem C09_predict_is_first_extended_by_follow :
 Proof. exact predict_spec. Qed.
 
 Print Assumptions C09_first_sets_exact.
+Print Assumptions C09_first_sets_closed.
 Print Assumptions C09_first_sets_sound.
 Print Assumptions C09_predict_is_first_extended_by_follow.
 Print Assumptions C09_follow_sets_exact.
